@@ -13,6 +13,7 @@ import (
 	"github.com/gogpu/naga"
 	"github.com/gogpu/naga/spirv"
 	"verif/internal/run"
+	"verif/internal/spvval"
 	"verif/internal/spvx"
 	"verif/internal/xrt"
 )
@@ -214,4 +215,22 @@ func witnessExecSpirv(w witness) string {
 		return "trap: " + res.Traps[0].Error()
 	}
 	return checkExpects(w, bufs)
+}
+
+func witnessSpirvValid(w witness) string {
+	mod, stage, err := lowerSrc(w.Src)
+	if err != nil {
+		return stage + ": " + err.Error()
+	}
+	for _, v := range []spirv.Version{spirv.Version1_0, spirv.Version1_3, spirv.Version1_6} {
+		bin, err := naga.GenerateSPIRV(mod, spirv.Options{Version: v})
+		if err != nil {
+			return "spirv: " + err.Error()
+		}
+		rep := spvval.Validate(bin, spvval.Options{RequestedVersion: [2]int{int(v.Major), int(v.Minor)}})
+		if len(rep.Findings) > 0 {
+			return fmt.Sprintf("v%d.%d: %s", v.Major, v.Minor, rep.Findings[0])
+		}
+	}
+	return ""
 }
